@@ -15,7 +15,7 @@ from .core import Impure, PathCtx
 from .source import FuncInfo, ModuleInfo, Repo, Unsupported
 from .values import (BUILTIN_EXCS, BoundMethod, Builtin, ClassMethodVal, EnumMember, ExcClass,
                      ExcInstance, Ext, FStr, Model, NPStr, Obj, PropertyVal, PyExc,
-                     StaticMethodVal, SymEnum, UnionType, is_sym, to_real, to_z3)
+                     StaticMethodVal, SymEnum, SymOpt, UnionType, is_sym, to_real, to_z3)
 
 
 from .rt import (MISSING, ClassInfo, Frame, NotImplementedVal, _Break, _Continue, _Return,
@@ -183,6 +183,8 @@ class Interp(StmtMixin, ObjMixin):
             return True
         if isinstance(v, SymEnum):
             return True
+        if isinstance(v, SymOpt):
+            return self.ctx.branch(z3.And(z3.Not(v.is_none), v.val != 0))
         return True
 
     def symbolic_truth(self, v):
@@ -737,6 +739,13 @@ class Interp(StmtMixin, ObjMixin):
             return elementwise_cmp(self, op, a, b)
         if isinstance(a, SymEnum) or isinstance(b, SymEnum):
             return self.symenum_cmp(op, a, b)
+        if isinstance(a, SymOpt) or isinstance(b, SymOpt):
+            if op not in ('==', '!='):
+                raise Unsupported('ordering on optional value')
+            e = a.eq(b) if isinstance(a, SymOpt) else b.eq(a)
+            if op == '==':
+                return e
+            return (not e) if isinstance(e, bool) else z3.Not(e)
         if isinstance(a, NPStr) or isinstance(b, NPStr):
             if op == '==':
                 return a == b
@@ -849,6 +858,10 @@ class Interp(StmtMixin, ObjMixin):
         return (oa == ob) if op == '==' else (oa != ob)
 
     def is_(self, a, b):
+        if isinstance(a, SymOpt) or isinstance(b, SymOpt):
+            if a is None or b is None:
+                return (a if isinstance(a, SymOpt) else b).is_none
+            raise Unsupported('identity test on optional value')
         if a is None or b is None:
             if is_sym(a) or is_sym(b):
                 return False
